@@ -129,14 +129,17 @@ func (h *hist) genTable() (*mtable, []string) {
 		t.cols = append(t.cols, &mcol{name: h.newColName(), t: ty, nullable: h.rnd.Intn(100) < 70, def: h.defaultFor(ty)})
 	}
 	switch p := h.rnd.Intn(100); {
-	case p < 50:
+	case p < 60:
 		t.pk = []string{"id"}
 	case p < 75:
 		c := t.cols[1+h.rnd.Intn(n)]
 		c.nullable = false
 		t.pk = []string{"id", c.name}
 	}
-	nix := h.rnd.Intn(3)
+	nix := 0
+	if h.rnd.Intn(100) < 45 {
+		nix = 1 + h.rnd.Intn(2)
+	}
 	for i := 0; i < nix; i++ {
 		h.nidx++
 		ix := &mindex{name: fmt.Sprintf("ix%d", h.nidx), unique: h.rnd.Intn(100) < 35}
@@ -238,7 +241,14 @@ func (h *hist) otherCols() []*mcol {
 	return out
 }
 
+// Domain exclusion (known finding reposition-then-add-unique-index-uses-stale-positions): FIRST / AFTER
+// are generated only when noMove is false (hunt mode); the registered streams do not move columns.
+var noMove = true
+
 func (h *hist) position(exclude string) (string, string) {
+	if noMove {
+		return "", ""
+	}
 	switch p := h.rnd.Intn(100); {
 	case p < 55:
 		return "", ""
@@ -316,10 +326,33 @@ func (h *hist) inMultiColIndex(col string) bool {
 	return false
 }
 
+// shapeOK: column-shape ALTERs (ADD COLUMN with FIRST/AFTER, DROP / MODIFY / CHANGE / RENAME COLUMN)
+// are in the core domain only while the table has no secondary index and no composite primary key
+// (known finding alter-reshape-leaves-stale-key-metadata, via=domain).
+func (h *hist) shapeOK() bool { return len(h.t.idx) == 0 && len(h.t.pk) <= 1 }
+
 func (h *hist) genClause() *clause {
 	t := h.t
 	others := h.otherCols()
 	p := h.rnd.Intn(100)
+	if !h.shapeOK() {
+		// only: ADD COLUMN at the end, key / index changes, RENAME TABLE
+		switch {
+		case p < 20:
+			ty := h.randType()
+			return &clause{kind: "add", nc: &mcol{name: h.newColName(), t: ty, nullable: h.rnd.Intn(100) < 55, def: h.defaultFor(ty)}}
+		case p < 27:
+			p = 66 + h.rnd.Intn(8) // addpk
+		case p < 42:
+			p = 74 + h.rnd.Intn(6) // droppk
+		case p < 60:
+			p = 80 + h.rnd.Intn(10) // addidx
+		case p < 92:
+			p = 90 + h.rnd.Intn(5) // dropidx
+		default:
+			p = 95
+		}
+	}
 	switch {
 	case p < 17:
 		ty := h.randType()
@@ -427,6 +460,9 @@ func (h *hist) genClause() *clause {
 			return &clause{kind: "dropidx", ixname: "nosuchix"}
 		}
 		return &clause{kind: "dropidx", ixname: t.idx[h.rnd.Intn(len(t.idx))].name}
+	}
+	if len(t.idx) > 0 {
+		return nil // domain exclusion (known finding secondary-index-not-maintained-after-table-rename)
 	}
 	h.nren++
 	return &clause{kind: "renametable", newName: fmt.Sprintf("t_r%d", h.nren)}
